@@ -157,6 +157,8 @@ void vrt_fp_disarm(void);
 uint64_t vrt_fp_ordinal(void);          /* requests seen since arm */
 /* optional hook called on every library allocator call (C06 schedule points) */
 extern void (*vrt_alloc_hook)(int kind, void *p);
+/* optional: called by vrt_fail() after recording, before leaving the case */
+extern void (*vrt_fail_hook)(void);
 
 /* misc */
 void vrt_set_mt(int on);               /* allocator table locking for threaded harnesses */
